@@ -14,10 +14,13 @@ import (
 	"fmt"
 	"math"
 	"net/http/httptest"
+	"regexp"
 	"runtime"
 	"sort"
 	"strconv"
 	"strings"
+	"sync"
+	"sync/atomic"
 	"testing"
 	"time"
 
@@ -28,9 +31,9 @@ import (
 )
 
 type lset struct {
-	Labels []string  `json:"labels"`
-	I      int64     `json:"i,omitempty"`
-	F      string    `json:"f,omitempty"`
+	Labels []string `json:"labels"`
+	I      int64    `json:"i,omitempty"`
+	F      string   `json:"f,omitempty"`
 	f      float64
 	S      string    `json:"s,omitempty"`
 	Obs    []float64 `json:"observations,omitempty"`
@@ -627,4 +630,174 @@ func TestC22(t *testing.T) {
 	_ = flag.Set("graphite_prefix", "")
 	_ = flag.Set("statsd_prefix", "")
 	_ = flag.Set("collectd_prefix", "")
+	if r.Violations() == 0 {
+		concurrentPhase(t, r)
+	}
+}
+
+// concurrentPhase: the outputs are produced while label sets of the same metric
+// are removed and created again (what programs' del / expiry / limits and new
+// labels do; a re-created label set goes to the end of the metric's list, so
+// the list keeps shifting under the export). Every label set always carries
+// the same distinctive value. Mutations and exports are stamped from one
+// logical clock; a label set no mutation of which overlaps an export was
+// present and unchanged for the whole export, so whatever state the export
+// observed, it must have exactly one record with its own value.
+func concurrentPhase(t *testing.T, r *ev.Run) {
+	st := metrics.NewStore()
+	m := metrics.NewMetric("cc", "p", metrics.Counter, metrics.Int, "k")
+	const nSets = 32
+	key := func(i int) string { return fmt.Sprintf("s%d", i) }
+	for i := 0; i < nSets; i++ {
+		d, _ := m.GetDatum(key(i))
+		datum.SetInt(d, int64(7000+i), time.Unix(2000+int64(i), 0))
+	}
+	if err := st.Add(m); err != nil {
+		t.Fatal(err)
+	}
+	e, err := exporter.New(context.Background(), st, exporter.Hostname("h"), exporter.DisableExport(), exporter.PushInterval(60*time.Second))
+	if err != nil {
+		t.Fatal(err)
+	}
+	defer e.Stop()
+	type span struct{ s, e int64 }
+	var clk atomic.Int64
+	var logMu sync.Mutex
+	ops := make([][]span, nSets)
+	stop := make(chan struct{})
+	var mut sync.WaitGroup
+	var flips atomic.Int64
+	for w := 0; w < 2; w++ {
+		w := w
+		mut.Add(1)
+		go func() {
+			defer mut.Done()
+			for n := 0; ; n++ {
+				select {
+				case <-stop:
+					return
+				default:
+				}
+				i := (2*n + w) % nSets
+				logMu.Lock()
+				ops[i] = append(ops[i], span{clk.Add(1), math.MaxInt64})
+				at := len(ops[i]) - 1
+				logMu.Unlock()
+				_ = m.RemoveDatum(key(i))
+				if n%5 == 0 {
+					runtime.Gosched()
+				}
+				d, _ := m.GetDatum(key(i))
+				datum.SetInt(d, int64(7000+i), time.Unix(2000+int64(i), 0))
+				logMu.Lock()
+				ops[i][at].e = clk.Add(1)
+				logMu.Unlock()
+				flips.Add(1)
+				runtime.Gosched()
+			}
+		}()
+	}
+	tokRe, valRe := make([]*regexp.Regexp, nSets), make([]*regexp.Regexp, nSets)
+	for i := range tokRe {
+		tokRe[i] = regexp.MustCompile(fmt.Sprintf(`(^|[^A-Za-z0-9])s%d([^A-Za-z0-9]|$)`, i))
+		valRe[i] = regexp.MustCompile(fmt.Sprintf(`(^|[^0-9])%d([^0-9]|$)`, 7000+i))
+	}
+	var judged atomic.Int64
+	judge := func(c0, c1 int64, recs []string) string {
+		logMu.Lock()
+		stable := make([]bool, nSets)
+		for i := range stable {
+			stable[i] = true
+			for _, o := range ops[i] {
+				if o.s <= c1 && o.e >= c0 {
+					stable[i] = false
+				}
+			}
+		}
+		logMu.Unlock()
+		for i := 0; i < nSets; i++ {
+			if !stable[i] {
+				continue
+			}
+			judged.Add(1)
+			n, val := 0, false
+			for _, rec := range recs {
+				if tokRe[i].MatchString(rec) {
+					n++
+					val = valRe[i].MatchString(rec)
+				}
+			}
+			if n != 1 || !val {
+				return fmt.Sprintf("label set k=s%d (present and unmodified for the whole export, value %d) has %d records (own value on the last: %v)", i, 7000+i, n, val)
+			}
+		}
+		return ""
+	}
+	n := ev.Pick(150, 3000)
+	var exports atomic.Int64
+	var wg sync.WaitGroup
+	for _, format := range []string{"varz", "graphite-handler", "json", "push-graphite", "push-statsd", "push-collectd"} {
+		format := format
+		wg.Add(1)
+		go func() {
+			defer wg.Done()
+			for i := 0; i < n && r.Violations() == 0; i++ {
+				var recs []string
+				c0 := clk.Add(1)
+				switch format {
+				case "varz", "graphite-handler":
+					rec := httptest.NewRecorder()
+					if format == "varz" {
+						e.HandleVarz(rec, httptest.NewRequest("GET", "/varz", nil))
+					} else {
+						e.HandleGraphite(rec, httptest.NewRequest("GET", "/graphite", nil))
+					}
+					recs = strings.Split(rec.Body.String(), "\n")
+				case "json":
+					rec := httptest.NewRecorder()
+					e.HandleJSON(rec, httptest.NewRequest("GET", "/json", nil))
+					var ms []struct {
+						Name        string
+						LabelValues []struct {
+							Labels []string
+							Value  struct{ Value json.RawMessage }
+						}
+					}
+					if err := json.Unmarshal(rec.Body.Bytes(), &ms); err != nil {
+						r.Violation("concurrent-json", map[string]any{"what": "JSON does not decode: " + err.Error()})
+						return
+					}
+					for _, mm := range ms {
+						for _, lv := range mm.LabelValues {
+							recs = append(recs, strings.Join(lv.Labels, ",")+" "+string(lv.Value.Value))
+						}
+					}
+				default:
+					rw := &recWriter{}
+					if err := e.WriteSocketMetricsForVerif(rw, strings.TrimPrefix(format, "push-")); err != nil {
+						r.Violation("concurrent-"+format, map[string]any{"what": "push write path failed: " + err.Error()})
+						return
+					}
+					for _, x := range rw.recs {
+						recs = append(recs, strings.Split(strings.TrimRight(x, "\n"), "\n")...)
+					}
+				}
+				c1 := clk.Add(1)
+				if w := judge(c0, c1, recs); w != "" {
+					r.Violation("concurrent-"+format, map[string]any{"format": format, "what": w + "; the export ran while other label sets of the metric were being removed and re-created", "output": recs})
+					return
+				}
+				exports.Add(1)
+			}
+		}()
+	}
+	wg.Wait()
+	close(stop)
+	mut.Wait()
+	r.Eval(1)
+	r.Count("concurrent_exports_judged", int(exports.Load()))
+	r.Count("concurrent_stable_label_sets_judged", int(judged.Load()))
+	r.Count("concurrent_label_set_removals_and_creations", int(flips.Load()))
+	r.Distinct("concurrent-phase")
+	r.Floor("concurrent_stable_label_sets_judged", 1000)
 }
